@@ -245,4 +245,17 @@ def eval_alg(expr: ast.expr, env: Dict[str, object]):
                 return a.cross(b)
         if nm in ("asarray", "array") and expr.args:
             return eval_alg(expr.args[0], env)
+        if nm in ("min", "max") and len(expr.args) >= 2 and isinstance(fn, ast.Name):
+            vals = [eval_alg(a, env) for a in expr.args]
+            nums = [const_value(v) for v in vals]
+            if all(x is not None for x in nums):
+                pick = min if nm == "min" else max
+                return vals[nums.index(pick(nums))]
     raise AnalysisError(f"algebra domain: cannot follow '{ast.unparse(expr)[:80]}'")
+
+
+def const_value(v) -> Optional[Fraction]:
+    """The number a Rat denotes when it contains no variable (None otherwise)."""
+    if isinstance(v, Rat) and v.num.is_const() and v.den.is_const() and v.den.terms:
+        return v.num.terms.get((), Fraction(0)) / v.den.terms[()]
+    return None
